@@ -62,7 +62,7 @@ func init() {
 		Level: "exploration",
 		Rule: "the same Plan and schedule are executed against worlds that differ only in how the schema reached NewTranscoder: by name from generated code (reference); NewServiceWithSchema with the generated descriptor; a fresh protodesc file built from the serialised descriptor; " +
 			"a private registry rebuilt file by file with google.api.http parsed as a dynamic extension; a service descriptor without parent file; a resolver that answers NotFound for every type (alone and on top of the fresh file), and resolvers that know every type except the request-only (response-only) ones. " +
-			"scenario corpus: REST and RPC requests against two services defined in one run-time built file and registered in either order; REST requests rendered by the reference encoder for the 13 bound LibraryService methods (routing, binding, response_body), RPC requests in every unary client form incl. Connect GET, scripted backend errors. " +
+			"and a schema that exists only as run-time built descriptors with a three-file import chain, served with a resolver built from all files (reference) and with the resolver left to the transcoder. scenario corpus: REST and RPC requests against two services defined in one run-time built file and registered in either order; REST requests rendered by the reference encoder for the 13 bound LibraryService methods (routing, binding, response_body), RPC requests in every unary client form incl. Connect GET, scripted backend errors. " +
 			"oracle: equal canonical outcome at the client and equal view at the backend across all variants. distinct = (scenario kind, client form, method, schedule hash); non-trivial = the request reached ServeHTTP. " +
 			"vanguardgrpc.NewTranscoder is not simulated (grpc-go's handler transport runs its own goroutines): not covered by this check",
 		Gen: func(c *Chooser, tier string) *Plan {
